@@ -295,8 +295,8 @@ def families(env):
     # quantifier-free must not follow the tree of the rest)
     def beside_quantifier(base):
         def build(n, pattern):
-            q = mgr.Symbol("q_bound", I)
-            return mgr.And(mgr.ForAll([q], mgr.GT(mgr.Plus(q, il[0]), mgr.Int(0))), F[base](n, pattern))
+            q = mgr.Symbol("q_bound", B)          # (a Boolean binder: every theory has a quantified logic with it)
+            return mgr.And(mgr.ForAll([q], mgr.Or(q, bl[0])), F[base](n, pattern))
         return build
     for base in ("plus-minus", "bv-ite-then", "iff", "store-select"):
         F["beside-quantifier:" + base] = beside_quantifier(base)
